@@ -249,3 +249,17 @@ def test_fixed_C19_rule_named_like_transformer_attribute():           # d0a2b8e
         p = Lark('start: %s\n%s: A B\nA: "a"\nB: "b"\n%%ignore " "\n' % (name, name), parser='lalr', maybe_placeholders=False)
         t = p.parse('ab')
         assert p.parse(Reconstructor(p).reconstruct(t)) == t
+
+
+def test_fixed_C12_edit_terminals_not_served_from_cache(tmp_path):    # 0896624
+    g = 'start: (A | B)+ [C]\nA: "a"\nB: "b"\nC: "c"\n'
+
+    def edit(t):
+        if t.name == 'C':
+            t.pattern.value = 'ca'
+    path = str(tmp_path / 'c')
+    Lark(g, parser='lalr', cache=path)
+    p = Lark(g, parser='lalr', cache=path, edit_terminals=edit)
+    assert p.parse('aca') == Lark(g, parser='lalr', edit_terminals=edit).parse('aca')
+    q = Lark(g, parser='lalr', cache=path)
+    assert q.parse('ac') == Lark(g, parser='lalr').parse('ac')
